@@ -137,9 +137,9 @@ type chanState struct {
 }
 
 type loopFrame struct {
-	L      *Loop
-	VarAt0 string // value of the variant at the head
-	HasVar bool
+	L       *Loop
+	VarAt0  string // value of the variant at the head
+	HasVar  bool
 	AutoVar bool // variant supplied by the engine (map iteration)
 }
 
@@ -160,9 +160,9 @@ type State struct {
 	prev      *ssa.BasicBlock
 	trace     []string
 	defers    []*ssa.Defer
-	oldHeaps  map[string]string // heaps at function entry
-	entryVals map[string]Value  // entry values of parameters by name
-	known     map[string]bool   // atoms asserted on this path (syntactic pruning of branches)
+	oldHeaps  map[string]string        // heaps at function entry
+	entryVals map[string]Value         // entry values of parameters by name
+	known     map[string]bool          // atoms asserted on this path (syntactic pruning of branches)
 	loopPre   map[int]map[string]Value // per loop ordinal: the named variables' values when the loop was entered
 	stops     []stopFrame              // join points at which this path hands itself over for merging
 	pcond     []string                 // branch conditions taken since the function entry (for merging)
@@ -174,7 +174,7 @@ func (s *State) clone() *State {
 		cells: make(map[interface{}]Value, len(s.cells)), named: make(map[string]interface{}, len(s.named)),
 		regs: make(map[ssa.Value]Value, len(s.regs)), heaps: make(map[string]string, len(s.heaps)),
 		maps: make(map[string]*mapState, len(s.maps)), chans: make(map[string]*chanState, len(s.chans)),
-		ghost: make(map[string]Value, len(s.ghost)),
+		ghost:     make(map[string]Value, len(s.ghost)),
 		allocBase: s.allocBase, allocOff: s.allocOff, entryBase: s.entryBase, prev: s.prev,
 		oldHeaps: s.oldHeaps, entryVals: s.entryVals,
 	}
